@@ -24,6 +24,8 @@ if args == ["--all"]:          # re-verify every recorded seed with the checks r
             continue
         cks = list((mm.get("verification") or {}).get("checks", {})) or [d.name.split("-")[0]]
         own = d.name.split("-")[0]
+        if os.environ.get("FROM") and d.name < os.environ["FROM"]:
+            continue
         args.append(d.name + ":" + ",".join(c for c in cks if c != own))
 for arg in args:
     sid, _, extra = arg.partition(":")
